@@ -182,6 +182,9 @@ def run(c):
         else:
             for s in sigs:
                 add(runner, ["sig", str(s)], table_sig(s), ("sig", s))
+            # the same without the program touching its signal mask or dispositions first: signals the container init does not ignore
+            for s in (10, 12, 13, 14, 24, 25, 26, 27, 29, 30, 34, 64):
+                add(runner, ["sigplain", str(s)], table_sig(s), ("sig", s))
             for k, s in (("segv", 11), ("ill", 4), ("trap", 5), ("fpe", 8)):
                 add(runner, ["fault", k], table_sig(s), ("sig", s))
             if runner != "container_after":   # with sync after exec the callback gets the pid of the container init
@@ -203,7 +206,7 @@ def run(c):
         if bad or o["err"]:
             c.finding_or_violation({"kind": "table", "runner": x["runner"], "program": " ".join(x["args"]),
                                     "signal_name": SIGNAME.get(v) if what == "sig" else None,
-                                    "self_sent": "kill" not in x and x["args"][0] == "sig",
+                                    "self_sent": "kill" not in x and x["args"][0] in ("sig", "sigplain"), "mask_untouched": x["args"][0] == "sigplain",
                                     **({"core_file_written": True} if x.get("core") else {}), **({"stopped_and_continued": True} if x.get("_stop") else {}),
                                     "expected": list(x["_expect"]), "observed": list(got)},
                                    {"case": {k: v2 for k, v2 in x.items() if not k.startswith("_")}, "observed": o},
